@@ -443,7 +443,17 @@ def predicate(kind, X, rank, extra, st, v, info, calls=None):
         if kind == "tucker":
             return pred_tucker(X, rank, v[0], v[1]) or pred_tucker_identity(X, v[0], v[1])
         if kind == "tr":
-            return pred_tr(X, rank, extra.get("mode", 0), v, info.get("sufficient", False))
+            msg = pred_tr(X, rank, extra.get("mode", 0), v, info.get("sufficient", False))
+            if msg is None and calls is not None and len(LAST_KEPT) == len(calls) and all(k is not None for k in LAST_KEPT):
+                # transcription of C09_tensor_ring_error_sigma_R: squared error = discarded squared singular values, call by call
+                Xf = np.asarray(X, dtype=float)
+                err2 = fro(Xf - tr_full(v)) ** 2
+                disc = sum(float(np.sum(np.asarray(S, dtype=float)[int(k):] ** 2)) for (M, U, S, V), k in zip(calls, LAST_KEPT))
+                nx2 = fro(Xf) ** 2
+                if abs(err2 - disc) > 1e-9 * nx2 + 1e-7 * max(err2, disc):
+                    msg = (f"tensor_ring: squared error {err2:.9e} differs from the sum of the discarded squared singular values of the "
+                           f"first and the working unfoldings {disc:.9e} (tensor-ring error identity)")
+            return msg
     except Exception as e:  # malformed output (shapes that cannot be contracted ...)
         return f"{kind}: output cannot be reconstructed: {type(e).__name__}: {e}"
     return None
@@ -1034,6 +1044,17 @@ def run(chk):
                     rank_call = rank
             st, v, calls = run_impl(kind, X, rank_call, extra, via_class=via_class)
             chk.hist("pred_entry", "class.fit_transform" if via_class else "function")
+            if via_class and st == "ok":
+                # the class entry point must return the decomposition of the function with the same arguments
+                st_f, v_f, _ = run_impl(kind, X, rank_call, extra, via_class=False)
+                if st_f == "ok":
+                    fa = ([v[0]] + list(v[1])) if kind == "tucker" else list(v)
+                    fb = ([v_f[0]] + list(v_f[1])) if kind == "tucker" else list(v_f)
+                    same = len(fa) == len(fb) and all(a.shape == b.shape and np.allclose(a, b, rtol=1e-12, atol=1e-12) for a, b in zip(fa, fb))
+                    if not same:
+                        chk.finding(EP[kind], describe(kind, X, rank, extra, info),
+                                    f"{kind}: the class entry point (fit_transform) does not return the decomposition of the function with the same arguments", "C09_class_entry")
+                st, v, calls = run_impl(kind, X, rank_call, extra, via_class=True)   # restore the tape / kept ranks of the judged run
             if timed_out(st, v):
                 chk.hist("skipped_timeout", kind)
                 continue
